@@ -14,3 +14,14 @@ pub(crate) fn snapshot_from_sorted_origins(
         refresh: None,
     }
 }
+
+/// An empty snapshot with the given refresh deadline.
+pub(crate) fn snapshot_with_refresh(refresh: Option<Time>) -> PayloadSnapshot {
+    PayloadSnapshot {
+        origins: Default::default(),
+        router_keys: Default::default(),
+        aspas: Default::default(),
+        created: DateTime::<Utc>::default(),
+        refresh,
+    }
+}
